@@ -9,11 +9,11 @@ CHECKS = {
     "C06": {
         "level": "model_checking",
         "rule": "Engine A: every event sequence (depth 4 quick / 5 thorough) over {Allocate with LIFETIME in a boundary set, "
-                "Refresh with LIFETIME in a boundary set, CreatePermission, ChannelBind, clock advance to next deadline -/+ 1ns, -/+ 1s, by 31s} "
+                "Refresh with LIFETIME in a boundary set, Refresh refused for a mismatching REQUESTED-ADDRESS-FAMILY (LIFETIME 0 and 3000), CreatePermission, ChannelBind, clock advance to next deadline -/+ 1ns, -/+ 1s, by 31s} "
                 "x 3 configured default lifetimes on the real turn.Server in virtual time; after every event the response, "
                 "Server.AllocationCount and a full probe sweep are compared with the reference model; then a drain through every "
                 "remaining deadline. A class is (event class => response); a state is the canonical model key.",
-        "parts": [A("vtx", "./checks/c06", "TestC06", budget={"quick": 60, "thorough": 1500}),
+        "parts": [A("vtx", "./checks/c06", "TestC06", budget={"quick": 150, "thorough": 1500}),
               A("bfs", "./checks/c06", "TestC06BFS", tiers=["thorough"], budget={"thorough": 1500})],
     },
 }
